@@ -25,7 +25,7 @@ RULE = ('table of every public data operation of Cache, FanoutCache, DjangoCache
 DISTINCT = ('cases',)
 REQUIRED = ('cache_timeouts_raised', 'cache_retry_waited', 'bulk_partial_timeouts', 'fanout_reported', 'django_reported',
             'deque_waited', 'index_waited', 'lockfree_reads_ok', 'fault_taken_after_file_write', 'writing_lookups',
-            'sibling_block_cases', 'rollback_journal_cases', 'commit_timeouts_raised', 'commit_retries_waited')
+            'sibling_block_cases', 'rollback_journal_cases', 'commit_timeouts_raised', 'commit_retries_waited', 'fanout_bulk_totals_exact')
 ASSUMPTIONS = ('stats()/reset() are configuration calls with their own retry loop and are not driven',
                'the holder is a plain sqlite3 connection holding BEGIN IMMEDIATE on the same database file, or (sibling '
                'tier) a transact() block of another thread on the same Cache object')
@@ -215,6 +215,16 @@ def run_case(dc, sc, res, label, make, dirs_of, call, fault, retry, timeout, exp
                 res.violation('%s %s reported failure but changed the cache: %s' % (cls, label, diff(before, after)), wit)
                 return
             res.count('fanout_reported' if cls == 'FanoutCache' else 'django_reported')
+        elif expect == 'fan_total':
+            # a sharded bulk removal interrupted after a committed batch: it goes on once the lock is free and returns
+            # the exact number of items it removed, however many attempts failed in between
+            after = snapshot(dirs_of(d))
+            gone = sum(len(b[0]) for b in before) - sum(len(a[0]) for a in after)
+            if got[0] != 'ok' or got[1] != gone or gone <= 0 or ctrl.failed < 2:
+                res.violation('%s %s interrupted after its first batch for %d attempts returned %r, %d rows disappeared' % (
+                    cls, label, ctrl.failed, got, gone), wit)
+                return
+            res.count('fanout_bulk_totals_exact')
         elif expect == 'wait':
             if got[0] != 'ok':
                 res.violation('%s %s with retry must wait and succeed, got %r' % (cls, label, got), wit)
@@ -395,6 +405,18 @@ def cases(dc, journal='wal'):
             yield ('FanoutCache', label, mk_fan, fan_dirs, call, ('before', None, 1), False, timeout, exp)
             yield ('FanoutCache', label, mk_fan, fan_dirs, call, ('at_begin', None, 1), False, timeout, exp)
             yield ('FanoutCache', label, mk_fan, fan_dirs, call, ('release_after', 2, 1), True, timeout, 'wait')
+    def mk_fan_bulk(d, timeout):
+        # (items already expired and never culled, so that expire() has as much to do as clear() and evict())
+        f = dc.FanoutCache(d, shards=2, timeout=timeout, disk_min_file_size=T, cull_limit=0, **common.journal_kw(journal))
+        for i in range(520):
+            f.set('k%03d' % i, BIG if i % 97 == 0 else i, tag='bulk', expire=-1)
+        return f
+    fan2_dirs = lambda d: [os.path.join(d, '%03d' % i) for i in range(2)]    # noqa: E731
+    for label, call in {'clear': lambda f, r: f.clear(), 'evict': lambda f, r: f.evict('bulk'),
+                        'expire': lambda f, r: f.expire()}.items():
+        for k in (2, 3):
+            yield ('FanoutCache', label + ' (lock taken after the first batch)', mk_fan_bulk, fan2_dirs, call,
+                   ('at_begin', k, 2), False, 0, 'fan_total')
     fan_wait = {
         'setitem': lambda f, r: f.__setitem__('x', BIG),
         'delitem': lambda f, r: f.__delitem__('f'),
